@@ -1403,28 +1403,44 @@ fn read_cases(path: &str) -> Vec<Case> {
     cases
 }
 
-/// Run all cases through worker children; a child that dies (abort on a failed allocation) is replaced and the
-/// op it was executing is recorded as `abort` (`crash` for any other death), the rest of that case as `dead`.
+/// Run all cases through worker children, `CHUNK` cases per worker invocation (so that neither the case files
+/// nor the partial traces get large); a child that dies (abort on a failed allocation) is replaced and the op it
+/// was executing is recorded as `abort` (`crash` for any other death), the rest of that case as `dead`.
 fn run_cases(cases: &[Case], out: &str) {
-    let dir = std::env::temp_dir().join(format!("C10-{}-{}", std::process::id(), svh::Rng::new(cases.len() as u64).next() % 100000));
+    const CHUNK: usize = 40;
+    let dir = std::env::temp_dir().join(format!("C10-{}", std::process::id()));
     std::fs::create_dir_all(&dir).unwrap();
-    let cf = dir.join("cases.ops");
-    {
-        let mut f = std::io::BufWriter::new(std::fs::File::create(&cf).unwrap());
-        for c in cases {
-            writeln!(f, "case {}", c.id).unwrap();
-            for op in &c.ops {
-                writeln!(f, "{}", op).unwrap();
+    let mut final_out = std::io::BufWriter::new(std::fs::File::create(out).unwrap());
+    for (k, chunk) in cases.chunks(CHUNK).enumerate() {
+        let cf = dir.join(format!("cases-{}.ops", k));
+        let part = dir.join(format!("part-{}.trace", k));
+        {
+            let mut f = std::io::BufWriter::new(std::fs::File::create(&cf).unwrap());
+            for c in chunk {
+                writeln!(f, "case {}", c.id).unwrap();
+                for op in &c.ops {
+                    writeln!(f, "{}", op).unwrap();
+                }
             }
         }
+        run_chunk(chunk, cf.to_str().unwrap(), part.to_str().unwrap());
+        let mut src = std::fs::File::open(&part).unwrap();
+        std::io::copy(&mut src, &mut final_out).unwrap();
+        let _ = std::fs::remove_file(&cf);
+        let _ = std::fs::remove_file(&part);
     }
+    final_out.flush().unwrap();
+    let _ = std::fs::remove_dir_all(&dir);
+}
+
+fn run_chunk(cases: &[Case], cf: &str, out: &str) {
     std::fs::write(out, b"").unwrap();
     let exe = std::env::current_exe().unwrap();
     let mut first = 0usize;
     let mut respawns = 0;
     while first < cases.len() {
         let st = std::process::Command::new(&exe)
-            .args(["worker", cf.to_str().unwrap(), &first.to_string(), out])
+            .args(["worker", cf, &first.to_string(), out])
             .stderr(std::process::Stdio::null())
             .env("RUST_BACKTRACE", "0")
             .status()
@@ -1433,14 +1449,13 @@ fn run_cases(cases: &[Case], out: &str) {
             break;
         }
         respawns += 1;
-        if respawns > 100_000 {
+        if respawns > 10 * cases.len() + 10 {
             panic!("too many worker deaths");
         }
         // find how far it got
         let text = std::fs::read_to_string(out).unwrap();
         let mut ncases = 0usize;
         let mut nops = 0usize;
-        let mut complete = text.ends_with('\n') || text.is_empty();
         for line in text.lines() {
             if line.starts_with("case ") {
                 ncases += 1;
@@ -1450,16 +1465,14 @@ fn run_cases(cases: &[Case], out: &str) {
             }
         }
         let mut f = std::fs::OpenOptions::new().append(true).open(out).unwrap();
-        if !complete {
+        if !(text.ends_with('\n') || text.is_empty()) {
             // a partially written last line (cannot normally happen: one write per line)
             writeln!(f).unwrap();
-            complete = true;
         }
-        let _ = complete;
         use std::os::unix::process::ExitStatusExt;
         let how = if st.signal() == Some(6) { "abort" } else { "crash" };
-        if ncases == 0 {
-            // died before the first case header
+        if ncases <= first {
+            // died before writing the header of the case it was to start with
             writeln!(f, "case {}", cases[first].id).unwrap();
             ncases = first + 1;
             nops = 0;
@@ -1471,7 +1484,6 @@ fn run_cases(cases: &[Case], out: &str) {
         }
         first = ci + 1;
     }
-    let _ = std::fs::remove_dir_all(&dir);
 }
 
 fn main() {
